@@ -299,6 +299,73 @@ class Run:
                           open(path, "w"), indent=1)
                 self.violations.append({"why": why, "replay": path, "key": key})
 
+    # ---------------------------------------------------------------- binding self-test
+    def selftest(self, module, trace, name, pick, mutate=None, start=None, span=400, drop=False, **kw):
+        """Demonstrate that the trace specification is bound to what the harness logs: take the first record accepted by
+        `pick`, corrupt it with `mutate` (or drop it), and require TLC to report a signature or drift on the mutated trace.
+        `start(record)` marks records a window may begin at (e.g. the prog record of a scenario); the window is the last such
+        record before the picked one .. +span records. A mutated trace that is still accepted = vacuous binding = exit 2."""
+        lines = open(trace).read().splitlines()
+        idx = None
+        for i, l in enumerate(lines):
+            try:
+                r = json.loads(l)
+            except Exception:
+                continue
+            if pick(r):
+                idx = i
+                break
+        if idx is None:
+            self.cov.setdefault("binding_selftests", []).append({"name": name, "skipped": "no record to mutate in this trace"})
+            return
+        a = idx
+        if start is not None:
+            while a > 0:
+                try:
+                    if start(json.loads(lines[a])):
+                        break
+                except Exception:
+                    pass
+                a -= 1
+        b = min(len(lines), idx + span)
+        if start is not None:      # stop at the next window start
+            for j in range(idx + 1, b):
+                try:
+                    if start(json.loads(lines[j])):
+                        b = j
+                        break
+                except Exception:
+                    pass
+        win = lines[a:b]
+        rec = json.loads(lines[idx])
+        if drop:
+            mutated = win[:idx - a] + win[idx - a + 1:]
+        else:
+            mutate(rec)
+            mutated = win[:idx - a] + [json.dumps(rec, separators=(",", ":"))] + win[idx - a + 1:]
+        base = trace + ".selftest-" + name
+        open(base + ".orig", "w").write("\n".join(win) + "\n")
+        open(base + ".mut", "w").write("\n".join(mutated) + "\n")
+        v0 = self.validate(module, base + ".orig", **kw)
+        v1 = self.validate(module, base + ".mut", **kw)
+        # the self-test traces are not part of the run's coverage
+        self.cov["traces_validated_against_impl"] -= v0.get("n", 0) + v1.get("n", 0)
+        n0 = len(v0.get("bad", [])) + len(v0.get("drift", []))
+        n1 = len(v1.get("bad", [])) + len(v1.get("drift", []))
+        res = {"name": name, "module": module, "window_records": len(win), "findings_original": n0, "findings_mutated": n1,
+               "mutation": "dropped record" if drop else "corrupted one logged field",
+               "reported": sorted({w for x in v1.get("bad", []) for w in x["why"]} |
+                                  {w for x in v1.get("drift", []) if isinstance(x, dict) for w in x.get("why", [])})[:6]}
+        self.cov.setdefault("binding_selftests", []).append(res)
+        for f in (base + ".orig", base + ".mut"):
+            try:
+                os.remove(f)
+            except OSError:
+                pass
+        if n1 <= n0:
+            raise Infra("binding self-test %s: the mutated trace is judged like the original (%d findings): the trace "
+                        "specification does not constrain that field" % (name, n1))
+
     def sample(self, trace, n=2, pick=None):
         """Copy a few actual records into coverage.samples."""
         with open(trace) as f:
